@@ -13,6 +13,7 @@ pub(crate) use block_filter::GET_BLOCK_FILTERS_TOKEN;
 #[cfg(nervosnetwork_ckb_light_client_verif)]
 pub(crate) mod verif_exports {
     pub(crate) use super::block_filter::{
-        GET_BLOCK_FILTERS_DURATION, GET_BLOCK_FILTERS_TOKEN,
+        GET_BLOCK_FILTERS_DURATION, GET_BLOCK_FILTERS_TOKEN, GET_BLOCK_FILTER_CHECK_POINTS_TOKEN,
+        GET_BLOCK_FILTER_HASHES_TOKEN,
     };
 }
